@@ -134,6 +134,17 @@ def r2d_own_file_keys(ctx):
         r.anchor_missing("analysis entry", "no unique function that calls rustpython_parser::parse and stores file_cache")
         return r
     r.counts["entry"] = entry.id
+    canon = _canonicalizing_fns(ctx)
+    upstream = {entry.id}
+    changed = True
+    while changed:
+        changed = False
+        for callee, callers in db.origins.callers.items():
+            if callee in upstream:
+                for cf, _bb, _c in callers:
+                    if cf.id not in upstream:
+                        upstream.add(cf.id)
+                        changed = True
     n = 0
     for m in db.per_file_index():
         for op in db.writes(m):
@@ -142,7 +153,8 @@ def r2d_own_file_keys(ctx):
             n += 1
             key = "R2d|%s|%s.%s" % (op.fn.id, m, op.method)
             orig = db.origins.of_operand(op.fn, op.call["args"][1])
-            good = {o for o in orig if o[0] == "call" and o[1] == entry.id and o[2].endswith("::get_canonical_path") and not o[3]}
+            # the canonical path of the analysed file: computed in the entry or in a function that leads to it (a wrapper)
+            good = {o for o in orig if o[0] == "call" and o[1] in upstream and (o[2] in canon or o[2].endswith("Path::canonicalize")) and not o[3]}
             bad = orig - good
             if good and not bad:
                 r.ok(sample={"own_file_key": key})
